@@ -15,9 +15,11 @@ META = {
     'technique': 'Coq proof (parser invariants over any segmentation x any chunk list; GF(2) linearity of the CRC-24 step and injectivity of the '
                  'CRC-32 step for bit-flip detection at unbounded payload length) on a hand-written model of segment.py + the checksumming '
                  'path of Connection.process_io_buffer, + per-read differential execution against the real SegmentCodec/Connection',
-    'level_text': 'see docs/C06.md and Props/C06.v: C06_roundtrip / C06_roundtrip_messages (any frames, any segmentation incl. multi-segment messages '
-                  'and left-uncompressed segments, any chunking -> exactly those frames, clean final state), C06_no_spurious_crc, '
-                  'C06_detects_header_flip, C06_detects_payload_flip (every bit position, any payload length, any chunking).',
+    'level_text': 'C06_roundtrip / C06_roundtrip_messages (any frames, any segmentation incl. multi-segment messages > 128 KiB-1 and segments left '
+                  'uncompressed, any chunking -> exactly those frames in order, both buffers empty at the end), C06_no_spurious_crc, '
+                  'C06_detects_header_flip, C06_detects_payload_flip (every bit position, payload of any length, any chunking, anything after the segment '
+                  '-> CrcMismatch, nothing delivered), C06_crc24_single_bit, C06_crc32_single_byte: all proved in Coq over Model/Segment.v (the REPAIRED code), '
+                  'compressor pair abstract; the model is compared with the real SegmentCodec/Connection after every read.',
     'level_note': 'Tie is correspondence (C); compressor pair abstract in the proofs (decompress (compress x) = x), toy RLE pair in the harness; '
                   'zlib.crc32 modelled bitwise and compared; behaviour after defunct not modelled; lz4 itself not covered.',
     'design_ref': 'DESIGN.md section 4, C06',
@@ -268,7 +270,7 @@ def run(ctx):
         else:
             eval_flip(ctx, fr, c['compressed'], c['seg_cuts'], c['cuts'], c['flip'], cases, meta)
     # 1. exhaustive single splits + one-byte reads of small streams
-    for i in range(6 if quick else 40):
+    for i in range(3 if quick else 40):
         compressed = (i % 2 == 1)
         frames = [gen_v5_frame(rng, maxbody=14) for _ in range(rng.randint(1, 3))]
         total = sum(len(F.enc_frame(*f)) for f in frames)
@@ -279,7 +281,7 @@ def run(ctx):
         eval_valid(ctx, frames, compressed, seg_cuts, list(range(1, len(stream))), cases, meta)
     ctx.exhaustive = True
     # 2. random k-splits
-    for i in range(120 if quick else 1500):
+    for i in range(60 if quick else 1200):
         compressed = rng.random() < 0.5
         frames = [gen_v5_frame(rng, maxbody=rng.choice([6, 30, 80])) for _ in range(rng.randint(0, 5))]
         total = sum(len(F.enc_frame(*f)) for f in frames)
@@ -317,9 +319,9 @@ def run(ctx):
         for bit in range(8 * n):
             mode = bit % 3
             cuts = [] if mode == 0 else ([rng.randint(0, n)] if mode == 1 else list(range(1, n)))
-            eval_flip(ctx, frames, compressed, seg_cuts, cuts, bit, cases, meta, model=(bit % 2 == 0 or not quick))
+            eval_flip(ctx, frames, compressed, seg_cuts, cuts, bit, cases, meta, model=(bit % 4 == 0 or not quick))
     # 5. random flips in longer streams
-    for i in range(60 if quick else 1500):
+    for i in range(40 if quick else 1200):
         compressed = rng.random() < 0.5
         frames = [gen_v5_frame(rng, maxbody=60) for _ in range(rng.randint(1, 4))]
         stream, _, _ = build_stream(F.codec(compressed), frames, None)
@@ -328,11 +330,11 @@ def run(ctx):
     # ---- model vs implementation
     if os.path.exists(os.path.join(core.COQ, 'Model', 'SegmentToy.vo')):
         try:
-            bad = ctx.coq_filter(['Stream', 'Crc', 'Segment', 'SegmentToy'], '(fun b : bool => b)', cases, shard=120)
+            bad = ctx.coq_filter(['Stream', 'Crc', 'Segment', 'SegmentToy'], '(fun b : bool => b)', cases, shard=50)
             for i in bad[:10]:
                 ctx.disagreement('model-vs-impl', 'Model/Segment.v differs from Connection/SegmentCodec at %s' % json.dumps(meta[i])[:300], case=meta[i])
-            fn = crc_cases(ctx, rng, 60 if quick else 600) + enc_cases(ctx, rng, 40 if quick else 400)
-            bad = ctx.coq_filter(['Stream', 'Crc', 'Segment', 'SegmentToy'], '(fun b : bool => b)', fn, shard=200)
+            fn = crc_cases(ctx, rng, 30 if quick else 600) + enc_cases(ctx, rng, 20 if quick else 400)
+            bad = ctx.coq_filter(['Stream', 'Crc', 'Segment', 'SegmentToy'], '(fun b : bool => b)', fn, shard=30)
             for i in bad[:5]:
                 ctx.disagreement('crc-or-encode-vs-impl', 'Coq crc/encode differs from zlib/segment.py: %s' % fn[i][:300], case={'expr': fn[i][:2000]})
         except RuntimeError as e:
